@@ -42,7 +42,7 @@ func ruleC06Stack(c *Ctx) {
 			switch x := i.(type) {
 			case *ssa.Store:
 				fa, ok := x.Addr.(*ssa.FieldAddr)
-				if !ok || c.ownerName(fa.X.Type()) != "state" {
+				if !ok || c.fieldOwner(fa) != "state" {
 					return
 				}
 				f := core.CanonFieldOf(fa.X.Type(), fa.Field)
@@ -522,7 +522,7 @@ func ruleC06Fallback(c *Ctx) {
 			// the tested value can be the lexical fallback
 			for _, s := range traceSourcesPhi(x) {
 				if ld, ok := s.val.(*ssa.UnOp); ok {
-					if fa, ok := ld.X.(*ssa.FieldAddr); ok && c.ownerName(fa.X.Type()) == "resolvedInfo" && isPointer(ld.Type()) && c.isPkgNamed(ld.Type(), "Schema") {
+					if fa, ok := ld.X.(*ssa.FieldAddr); ok && c.fieldOwner(fa) == "resolvedInfo" && isPointer(ld.Type()) && c.isPkgNamed(ld.Type(), "Schema") {
 						viaFallback = true
 					}
 				}
@@ -541,7 +541,7 @@ func ruleC06Fallback(c *Ctx) {
 				return
 			}
 			fa, ok := st.Addr.(*ssa.FieldAddr)
-			if !ok || c.ownerName(fa.X.Type()) != "resolvedInfo" {
+			if !ok || c.fieldOwner(fa) != "resolvedInfo" {
 				return
 			}
 			name := core.CanonFieldOf(fa.X.Type(), fa.Field)
